@@ -76,7 +76,7 @@ type Inst struct {
 }
 
 func regOp(class string, n int) Operand { return Operand{Kind: KReg, Class: class, Reg: n, Seg: -1} }
-func immOp(v int64, w int) Operand       { return Operand{Kind: KImm, Imm: v, ImmW: w, Seg: -1} }
+func immOp(v int64, w int) Operand      { return Operand{Kind: KImm, Imm: v, ImmW: w, Seg: -1} }
 
 func gpr(size, n int) Operand {
 	switch size {
